@@ -10,7 +10,7 @@ from vlib.harness import trees, globrun
 G = globrun.G
 L = patsets.L
 
-FLAGSETS = {'G': G.G, 'G|D': G.G | G.D, 'G|E': G.G | G.E, 'E': G.E, 'G|SD': G.G | G.SD, 'G|D|SD': G.G | G.D | G.SD, 'X|G|E': G.X | G.G | G.E,
+FLAGSETS = {'X|GL': G.X | G.GL, 'G': G.G, 'G|D': G.G | G.D, 'G|E': G.G | G.E, 'E': G.E, 'G|SD': G.G | G.SD, 'G|D|SD': G.G | G.D | G.SD, 'X|G|E': G.X | G.G | G.E,
             'G|L': G.G | G.L, 'GL|E': G.GL | G.E, 'G|I': G.G | G.I, 'G|K': G.G | G.K, '0': 0, 'G|E|D|SD|Z': G.G | G.E | G.D | G.SD | G.Z, 'X|GL|L': G.X | G.GL | G.L}
 
 
@@ -32,7 +32,7 @@ def run(chk, tier, seed):
     pats = [p for p in pats if not (p and p[0][0] == 'sep')] + extra_patterns()
     if tier == 'quick':
         pats = pats[::3] + extra_patterns()
-    fsets = ['G', 'G|D', 'G|E', 'G|SD', 'X|G|E', 'G|L', 'GL|E', 'G|I', '0'] if tier == 'quick' else list(FLAGSETS)
+    fsets = ['G', 'G|D', 'G|E', 'G|SD', 'X|G|E', 'G|L', 'GL|E', 'G|I', '0', 'X|GL'] if tier == 'quick' else list(FLAGSETS)
     specs = dict(trees.NAMED)
     rnd = random.Random(seed * 31 + 5)
     for i in range(3 if tier == 'quick' else 40):
